@@ -23,7 +23,7 @@ class Pos:
         self.kind, self.k = kind, k
 
     def __repr__(self):
-        return 'in(%d)' % self.k if self.kind == 'in' else self.kind
+        return '%s(%d)' % (self.kind, self.k) if self.kind in ('in', 'at') else self.kind
 
     def __eq__(self, o):
         return isinstance(o, Pos) and (self.kind, self.k) == (o.kind, o.k)
@@ -33,20 +33,41 @@ class Pos:
 
 
 def classes(E, with_nan=True):
-    out = [Pos('below'), Pos('at_first')] + [Pos('in', k) for k in range(1, E)] + [Pos('at_last'), Pos('above')]
+    out = [Pos('below')]
+    for k in range(1, E):
+        out.append(Pos('at', k))        # x == edge_k
+        out.append(Pos('in', k))        # edge_k < x < edge_k+1
+    out += [Pos('at', E), Pos('above')]
     if with_nan:
         out.append(Pos('nan'))
     return out
 
 
 def digitize(p, E):
+    """np.digitize(x, edges) == np.searchsorted(edges, x, side='right') for increasing edges"""
     if p.kind == 'below':
         return 0
-    if p.kind == 'at_first':
-        return 1      # x == first edge belongs to the first bin [edge_1, edge_2)
+    if p.kind in ('in', 'at'):
+        return p.k      # edge_k <= x < edge_k+1 ; at(E) gives E
+    return E            # above and nan map to len(edges)
+
+
+def searchsorted_left(p, E):
+    """np.searchsorted(edges, x) (side='left'): number of edges strictly below x"""
+    if p.kind == 'below':
+        return 0
+    if p.kind == 'at':
+        return p.k - 1
     if p.kind == 'in':
         return p.k
-    return E      # at_last, above and nan all map to len(edges) for increasing edges
+    return E
+
+
+def spec_bin(p, E):
+    """0-based bin of the half-open intervals [edge_k, edge_k+1), None when out of range"""
+    if p.kind in ('in', 'at') and p.k <= E - 1:
+        return p.k - 1
+    return None
 
 
 NAN = Pos('nan')
@@ -88,6 +109,16 @@ class ElemEval:
                 if dict(t[3]).get('right', ('c', False)) != ('c', False):
                     raise Undecided('digitize(right=True)')
                 return digitize(x, self.Emap[t[2][1]])
+            if name == 'numpy.searchsorted' and len(t[2]) >= 2 and t[2][0] in self.edges:
+                x = self.ev(t[2][1])
+                if not isinstance(x, Pos):
+                    raise Undecided('searchsorted of a non-position value')
+                side = dict(t[3]).get('side', t[2][2] if len(t[2]) > 2 else ('c', 'left'))
+                if side == ('c', 'right'):
+                    return digitize(x, self.Emap[t[2][0]])
+                if side == ('c', 'left'):
+                    return searchsorted_left(x, self.Emap[t[2][0]])
+                raise Undecided('searchsorted side')
             if name == 'builtins.len' and len(t[2]) == 1 and t[2][0] in self.edges:
                 return self.Emap[t[2][0]]
             if name in IDENTITY_CALL and t[2]:
@@ -209,18 +240,20 @@ class ElemEval:
         """x (op) edges[0] / edges[-1] ; strict position: 'in(k)' lies in [edge_k, edge_k+1)"""
         if p.kind == 'nan':
             return op == '!='
+        E = max(self.Emap.values()) if len(set(self.Emap.values())) == 1 else None
         if which == 0:
-            # relative order of x and the first edge: below -> x < e0 ; in(1) may be == e0 or > e0
             if p.kind == 'below':
                 rel = -1
-            elif p.kind == 'at_first':
+            elif p.kind == 'at' and p.k == 1:
                 rel = 0
             else:
-                rel = 1             # in(k) denotes the interior or later edges: strictly above the first edge
+                rel = 1
         elif which == -1:
+            if E is None:
+                raise Undecided('comparison with the last edge of one of several edge vectors')
             if p.kind == 'above':
                 rel = 1
-            elif p.kind == 'at_last':
+            elif p.kind == 'at' and p.k == E:
                 rel = 0
             else:
                 rel = -1
